@@ -8,7 +8,7 @@ from .flow import must_pass, self_stores, self_reads
 from .repo import AnalysisError, dotted, norm_text, walk_no_nested
 
 NOTIFIERS = {"_InitMatrix", "_Notify", "Need_Update", "clear_cached_computed_values"}
-APPROX = {"allclose", "isclose", "array_equal", "array_equiv", "allclose_", "assert_allclose"}
+APPROX = {"allclose", "isclose", "allclose_", "assert_allclose"}  # tolerance comparisons only: np.array_equal / array_equiv are exact
 
 
 def _only_diagnostics(body):
